@@ -153,3 +153,61 @@ def C04(ck):
         ck.extra.update(accepted=acc, rejected=rej, by_source=stats.get("by_source"))
     finally:
         _rm(dom, wire)
+
+
+def _stride(ck, quick, thorough=1):
+    return quick if ck.tier == "quick" else thorough
+
+
+def C09(ck):
+    ck.rule = ("(a) the 27 072 valid claims-sets TLC enumerates from spec/Gen_Valid.tla (all optional subsets, hash sizes, 1..4 "
+               "components with every optional-field subset, text classes, negative client ids; profile 1 with / without profile and "
+               "with the no-measurements flag) plus extension profile X2 - every 5th in quick, all in thorough - built through "
+               "setters, as literals, via JSON or via CBOR: encode, decode with the dispatching decoder, compare every getter, "
+               "re-encode, compare bytes; (b) every token of the C04 enumeration that decodes (valid or not): encode, decode, compare "
+               "getters; judged by Trace_Wire!EncodeCBOROK; non-trivial = invalid set, or valid set (distinct abstract object)")
+    ck.assumptions = TRUST + ["the independent CBOR reader harness/cborx"]
+    ck.add_model(vlib.mc("MC_Claims", "MC_Claims_decoded.cfg"))
+    dom = vlib.gen_export("Gen_Claims", "Gen_Claims.cfg", "domains")
+    wire = vlib.gen_export("Gen_Wire", "Gen_Wire.cfg", "wire")
+    valid = vlib.gen_export("Gen_Valid", "Gen_Valid.cfg", "valid")
+    try:
+        ck.run_and_judge(["wire-encode", "-seed", ck.seed, "-tier", ck.tier, "-n", _stride(ck, 5), "-reg", "X2", "-chunk", 4000,
+                          "-in", valid, "-out", ck.path("we"), "cbor"], "Trace_Wire", par=12, xmx="3g")
+        ck.run_and_judge(["wire-decode", "-seed", ck.seed, "-tier", ck.tier, "-reg", "X2", "-chunk", 4000, "-in", wire, "-in2", dom,
+                          "-out", ck.path("wd"), "rtonly"], "Trace_Wire", par=12, xmx="3g")
+    finally:
+        _rm(dom, wire, valid)
+
+
+def C10(ck):
+    ck.rule = ("the valid claims-sets of spec/Gen_Valid.tla (every 3rd in quick, all in thorough), built through setters, as literals "
+               "and by decoding JSON / CBOR (incl. no-measurement profile-1 tokens, 48/64-byte hashes, all optional component fields): "
+               "the output of EncodeClaimsToCBOR / ValidateAndEncodeClaimsToCBOR is parsed by the independent reader and judged against "
+               "PsaWire!WireFormatOK (single definite map, no duplicates, exactly the keys of the claims that are set, type and exact "
+               "value per key, bare nonce, never list + flag, nothing after the map); the payload of ValidateAndSign is covered by C03; "
+               "non-trivial = every valid set (distinct abstract object)")
+    ck.assumptions = TRUST + ["the independent CBOR reader harness/cborx"]
+    ck.add_model(vlib.mc("MC_Claims", "MC_Claims_setters.cfg"))
+    valid = vlib.gen_export("Gen_Valid", "Gen_Valid.cfg", "valid")
+    try:
+        ck.run_and_judge(["wire-encode", "-seed", ck.seed, "-tier", ck.tier, "-n", _stride(ck, 3), "-chunk", 4000,
+                          "-in", valid, "-out", ck.path("we"), "cbor"], "Trace_Wire", par=12, xmx="3g")
+    finally:
+        _rm(valid)
+
+
+def C12(ck):
+    ck.rule = ("the valid claims-sets of spec/Gen_Valid.tla (every 3rd in quick, all in thorough; incl. profile-1 sets without "
+               "explicit profile, non-ASCII / control / quote text, negative client ids) and extension profile X2: EncodeClaimsToJSON "
+               "output parsed by encoding/json into a generic tree and judged against PsaWire!JsonFormatOK (member names, base64, "
+               "omission), decoded by DecodeClaimsFromJSON (dispatch judged against PsaWire!DispatchJSON), getters compared, and "
+               "CBOR -> claims -> JSON -> claims -> CBOR compared on bytes; non-trivial = every valid set")
+    ck.assumptions = TRUST + ["encoding/json of the Go standard library as the independent JSON reader"]
+    ck.add_model(vlib.mc("MC_Claims", "MC_Claims_setters.cfg"))
+    valid = vlib.gen_export("Gen_Valid", "Gen_Valid.cfg", "valid")
+    try:
+        ck.run_and_judge(["wire-encode", "-seed", ck.seed, "-tier", ck.tier, "-n", _stride(ck, 3), "-reg", "X2", "-chunk", 4000,
+                          "-in", valid, "-out", ck.path("we"), "json"], "Trace_Wire", par=12, xmx="3g")
+    finally:
+        _rm(valid)
